@@ -55,7 +55,16 @@ const (
 
 // ---------- passwords and stored hashes ----------
 
-var pwStrings = []string{"correct horse battery staple", "Tr0ub4dor&3", "hunter2", "pässwörd ünïcode"}
+var pwStrings = []string{"correct horse battery staple", "Tr0ub4dor&3", "hunter2", "pässwörd ünïcode",
+	// long passwords that agree on a long prefix: a verifier (or hasher) that looks only at the first
+	// 72 / 128 / 255 bytes cannot tell them apart
+	strings.Repeat("k", 127) + "A" + strings.Repeat("t", 38),
+	strings.Repeat("k", 127) + "A" + strings.Repeat("u", 38),
+	strings.Repeat("q", 72) + "1",
+	strings.Repeat("q", 72) + "2",
+	strings.Repeat("z", 255) + "x" + strings.Repeat("y", 40),
+	strings.Repeat("z", 255) + "w" + strings.Repeat("y", 40),
+}
 
 func pwString(tok int) string {
 	if tok < 0 {
@@ -334,11 +343,11 @@ func (h *harness) cfgObs() int64 {
 // ---------- requests ----------
 
 type body struct {
-	kind     string // none login change config
-	user     string
-	pw, pw2  int
-	v        int
-	rawNone  string
+	kind    string // none login change config
+	user    string
+	pw, pw2 int
+	v       int
+	rawNone string
 }
 
 func (b body) coq() string {
@@ -1030,9 +1039,9 @@ func main() {
 	}
 	h := &harness{
 		r: emit.NewRand(*flagSeed), base: "http://" + addr, start: time.Now(), cfg: cfg, dbh: dbh,
-		client:  &http.Client{CheckRedirect: func(*http.Request, []*http.Request) error { return http.ErrUseLastResponse }},
-		hashOf:  map[int]string{}, tokOf: map[string]int{}, pending: -1,
-		meta:    emit.NewMeta("web", *flagSeed, *flagTier),
+		client: &http.Client{CheckRedirect: func(*http.Request, []*http.Request) error { return http.ErrUseLastResponse }},
+		hashOf: map[int]string{}, tokOf: map[string]int{}, pending: -1,
+		meta: emit.NewMeta("web", *flagSeed, *flagTier),
 	}
 	h.w = &emit.Writer{Dir: *flagOut, Prefix: "web", ShardSize: 1 << 30,
 		Imports:  "From Coq Require Import Uint63.\nFrom Reservoir Require Import Base.Prelude Base.Packed Model.Auth Check.Auth.",
